@@ -8,8 +8,8 @@
 
    Nodes are their document-order index (N); node lists are what NodeRefListBase holds; strings are lists of
    UTF-16 code units (N).  Numbers: math:min/max only compare, so a number is NaN or the image of a non-NaN
-   double under an order-preserving map into Z (both zeros map to 0: DoubleSupport::equal(-0, 0) holds, and a
-   string-value never converts to -0, known finding K13).  The decisions and tables come from GenXpx.v, which is
+   double under an order-preserving map into Z (both zeros map to 0: DoubleSupport::equal(-0, 0) holds, neither
+   comparison separates them, and string() prints both as "0", so the sign of a zero result is not modelled).  The decisions and tables come from GenXpx.v, which is
    regenerated from /repo on every run. *)
 From Coq Require Import List NArith ZArith Bool Arith.
 Require Import XV.GenXpx.
@@ -190,8 +190,11 @@ Fixpoint prefix_eqb (kw s : list N) : bool :=
   | k :: kw', c :: s' => N.eqb k c && prefix_eqb kw' s'
   | _ :: _, [] => false
   end.
-Definition align_mode_of (a : list N) : align_mode :=
-  if prefix_eqb gen_align_center a then ACenter else if prefix_eqb gen_align_right a then ARight else ALeft.
+(* exact = the whole argument is compared (the repaired form), otherwise only its first |keyword| units *)
+Definition kw_test (exact : bool) (kw a : list N) : bool := if exact then str_eqb a kw else prefix_eqb kw a.
+Definition align_mode_gen (exact : bool) (a : list N) : align_mode :=
+  if kw_test exact gen_align_center a then ACenter else if kw_test exact gen_align_right a then ARight else ALeft.
+Definition align_mode_of (a : list N) : align_mode := align_mode_gen gen_align_exact_keyword a.
 
 Definition align (t p : list N) (m : align_mode) : list N :=
   let lt := length t in let lp := length p in
